@@ -25,7 +25,7 @@ RULE = (
     "non-trivial = some cell overlaps >= 2 bins or lies on a bin edge"
 )
 SPACE = {
-    "quick": "kernel: n in {1,2,3}, all 5^(n+1) profiles on {0..4}, all 52 strictly monotonic bin sets (26 subsets x 2 directions), float64 and float32; API: 66 column pairs x 6 bin sets x {bounds, centres} x 2 layouts x chunkings of the extra dim x {ndarray, DataArray} target",
+    "quick": "kernel: n in {1,2,3}, all 5^(n+1) profiles on {0..4}, all 52 strictly monotonic bin sets (26 subsets x 2 directions), float64 and float32; API: 66 column pairs x 6 bin sets x {bounds, centres} x 2 layouts x chunkings of the extra dim x {ndarray, DataArray} target, in float64, in float32, and mixed (float32 data, float64 target_data and bins scaled by 0.7 so that edge values are not float32-representable)",
     "thorough": "kernel n = 4 as well (3125 profiles), lattice {0..5} for n <= 2",
 }
 BOUNDS = {"quick": {"n": [1, 2, 3]}, "thorough": {"n": [1, 2, 3, 4]}}
@@ -121,35 +121,43 @@ API_PROFILES = [
 API_BINS = [[0, 1, 2, 3, 4], [4, 3, 2, 1, 0], [0, 2, 4], [4, 2, 0], [0, 1.5, 4], [-1, 0.5, 2.5, 5]]
 
 
-def api_case(rec, pa, pb, bi, where, layout, chunk, tkind, seed, only=False):
+def api_case(rec, pa, pb, bi, where, layout, chunk, tkind, seed, only=False, prec="f8"):
+    """prec: 'f8' all float64 on the integer lattice; 'f4' all float32; 'mixed' float32 data with
+    float64 target_data and bins scaled by 0.7 (values on bin edges that float32 cannot represent, some rounding inward)"""
     from xgcm import Grid
 
     nz = 3
-    case = dict(level="api", pa=pa, pb=pb, bi=bi, where=where, layout=layout, chunk=chunk, tkind=tkind)
+    case = dict(level="api", pa=pa, pb=pb, bi=bi, where=where, layout=layout, chunk=chunk, tkind=tkind, prec=prec)
+    scale = 0.7 if prec == "mixed" else 1.0
     ds = xr.Dataset(coords={"zc": ("zc", np.arange(nz) + 0.5), "zo": ("zo", np.arange(nz + 1.0)), "x": ("x", [0, 1])})
     with warnings.catch_warnings():
         warnings.simplefilter("ignore")
         g = Grid(ds, coords={"Z": {"center": "zc", "outer": "zo"}}, periodic=False, autoparse_metadata=False)
-    bins = API_BINS[bi]
-    profs = [API_PROFILES[pa], API_PROFILES[pb]]
+    bins = [float(np.float64(b) * scale) for b in API_BINS[bi]]
+    profs = [tuple(float(np.float64(v) * scale) for v in API_PROFILES[pa]), tuple(float(np.float64(v) * scale) for v in API_PROFILES[pb])]
     phi = np.array([[1.0, 2.0, 4.0], [3.0 + seed % 2, -1.0, 5.0]])
-    da = xr.DataArray(phi, dims=["x", "zc"], name="heat")
+    da = xr.DataArray(phi.astype(np.float32 if prec in ("f4", "mixed") else np.float64), dims=["x", "zc"], name="heat")
+    tdt = np.float32 if prec == "f4" else np.float64
     if where == "outer":
-        td = xr.DataArray(np.array(profs, dtype=float), dims=["x", "zo"], name="dens")
+        td = xr.DataArray(np.array(profs, dtype=tdt), dims=["x", "zo"], name="dens")
         theta = [list(map(F, p)) for p in profs]
     else:
+        if prec == "mixed":
+            return  # halving scaled values is not exact; the centre path is covered on the lattice
         cen = [p[:nz] for p in profs]
-        td = xr.DataArray(np.array(cen, dtype=float), dims=["x", "zc"], name="dens")
-        theta = [[F(c[0])] + [F(c[k] + c[k + 1], 2) for k in range(nz - 1)] + [F(c[-1])] for c in cen]
+        td = xr.DataArray(np.array(cen, dtype=tdt), dims=["x", "zc"], name="dens")
+        theta = [[F(c[0])] + [(F(c[k]) + F(c[k + 1])) / 2 for k in range(nz - 1)] + [F(c[-1])] for c in cen]
     if layout == "zx":
         da, td = da.transpose("zc", "x"), td.transpose(*reversed(td.dims))
     if chunk:
         da, td = da.chunk({"x": tuple(chunk)}), td.chunk({"x": tuple(chunk)})
-    target = np.array(bins, dtype=float) if tkind == "nd" else xr.DataArray(np.array(bins, dtype=float), dims=["rho"], name="rho")
+    bdt = np.float32 if prec == "f4" else np.float64
+    target = np.array(bins, dtype=bdt) if tkind == "nd" else xr.DataArray(np.array(bins, dtype=bdt), dims=["rho"], name="rho")
     newdim = "dens" if tkind == "nd" else "rho"
     Ws = [R.overlap_weights(t, bins) for t in theta]
     nontriv = True
-    rec.case(("api", pa, pb, bi, where, layout, tuple(chunk or ()), tkind), nontriv, sample=case)
+    rec.case(("api", pa, pb, bi, where, layout, tuple(chunk or ()), tkind, prec), nontriv, sample=case)
+    tol = 1e-9 if prec == "f8" else 1e-5
     try:
         with warnings.catch_warnings():
             warnings.simplefilter("ignore")
@@ -174,26 +182,28 @@ def api_case(rec, pa, pb, bi, where, layout, chunk, tkind, seed, only=False):
             # the ambiguous cells may go to either adjacent bin: residual must be explained by them
             want = sum(phi[c, i] for i in amb)
             support = set(j for i in amb for j in amb[i])
-            ok = abs(resid.sum() - want) < 1e-9 and all(abs(resid[j]) < 1e-9 for j in range(m) if j not in support)
+            ok = abs(resid.sum() - want) < tol and all(abs(resid[j]) < tol for j in range(m) if j not in support)
             if not ok:
                 twice = np.array([sum(phi[c, i] for i in amb if j in amb[i]) for j in range(m)])
-                cls = "homogeneous-cell-on-interior-bin-edge-counted-twice" if np.allclose(resid, twice, atol=1e-9) else "homogeneous-cell-on-interior-bin-edge"
+                cls = "homogeneous-cell-on-interior-bin-edge-counted-twice" if np.allclose(resid, twice, atol=tol) else "homogeneous-cell-on-interior-bin-edge"
                 rec.violation("api", cls, dict(case, column=c), exp, got[c])
                 return
-        elif not np.allclose(resid, 0, atol=1e-9):
+        elif not np.allclose(resid, 0, atol=tol):
             other = 1 - c
             Wo, ambo = Ws[other]
             expo = np.array([sum(float(Wo[j][i]) * phi[c, i] for i in range(nz)) for j in range(m)])
             cls = "values"
             if bins[1] < bins[0]:
                 cls += ":decreasing-bins"
+            if prec != "f8":
+                cls += ":" + prec
             rec.violation("api", cls, dict(case, column=c), exp, got[c])
             return
-        if R.within_span([float(t) for t in theta[c]], bins) and abs(got[c].sum() - phi[c].sum()) > 1e-9 and not amb:
+        if R.within_span([float(t) for t in theta[c]], bins) and abs(got[c].sum() - phi[c].sum()) > tol and not amb:
             rec.violation("api", "not-conserved", dict(case, column=c), float(phi[c].sum()), float(got[c].sum()))
             return
     centers = (np.array(bins[1:], dtype=float) + np.array(bins[:-1], dtype=float)) / 2
-    if newdim not in v.coords or not np.allclose(v.coords[newdim].values, centers):
+    if newdim not in v.coords or not np.allclose(v.coords[newdim].values, centers, rtol=1e-6):
         rec.violation("api", "bin-centre-coordinate", case, centers, v.coords[newdim].values if newdim in v.coords else None)
 
 
@@ -209,7 +219,12 @@ def api_cases(tier):
                 if tier == "quick":
                     variants = [variants[k % 4], variants[(k + 1) % 4]]
                 for layout, chunk, tkind in variants:
-                    out.append((pa, pb, bi, where, layout, chunk, tkind))
+                    out.append((pa, pb, bi, where, layout, chunk, tkind, "f8"))
+                if where == "outer":
+                    layout, chunk, tkind = variants[0]
+                    out.append((pa, pb, bi, where, layout, chunk, tkind, "mixed"))
+                    if k % 3 == 0:
+                        out.append((pa, pb, bi, where, layout, chunk, tkind, "f4"))
     return out
 
 
@@ -236,7 +251,7 @@ def run_shard(shard, tier, seed, rec):
     else:
         ac = api_cases(tier)
         for c in ac[shard[1]: shard[2]]:
-            api_case(rec, *c, seed)
+            api_case(rec, *c[:7], seed, prec=c[7])
 
 
 def replay_case(case, seed, rec):
@@ -248,4 +263,4 @@ def replay_case(case, seed, rec):
         kernel_case(rec, case["n"], case["bins"], dt, seed)
         rec.viol = [v for v in rec.viol if v["case"].get("profile") == case["profile"]]
     else:
-        api_case(rec, case["pa"], case["pb"], case["bi"], case["where"], case["layout"], case["chunk"], case["tkind"], seed)
+        api_case(rec, case["pa"], case["pb"], case["bi"], case["where"], case["layout"], case["chunk"], case["tkind"], seed, prec=case.get("prec", "f8"))
